@@ -225,6 +225,10 @@ def default_patches(P, mod):
         from .prelude_xr import XR
 
         P.set(mod, "xr", XR)
+    if "pd" in g:
+        from .prelude_pd import PD
+
+        P.set(mod, "pd", PD)
     P.set(mod, "int", sym_int)
     P.set(mod, "float", sym_float)
     P.set(mod, "len", sym_len)
